@@ -17,7 +17,7 @@ import (
 
 func init() {
 	Register(&Prop{
-		ID: "C08", Engine: "A", Quick: 1500, Thorough: 60000, Level: "exploration",
+		ID: "C08", Engine: "A", Quick: 700, Thorough: 40000, Level: "exploration",
 		Rule: "each case = one generated response script (the scripts of C03) whose whole byte stream, followed by a Pong, is handed to the network in one piece and then replayed under several delivery schedules: at once (reference), one byte at a time, two pieces at a drawn offset (every offset for streams <= 48 bytes), every composition for streams <= 12 bytes, random splits with short reads, and idle gaps longer than the read timeout placed at packet boundaries and right after a packet code; each replay is its own simulated run with its own goroutine schedule; oracle = transcript (callback trace with values, error class, outcome of the trailing Ping) equal to the reference; evaluations = replays; distinct = distinct (script, segmentation) digests; non-trivial = replays with more than one segment",
 		Run:  runC08,
 	})
@@ -107,7 +107,11 @@ func runC08(t *testing.T, c *choice.Stream, r *Result, opt RunOpt) {
 		var sizes []int
 		left := n
 		for left > 0 {
-			k := 1 + c.Draw("rand.k", min(left, c.Pick("rand.max", 2, 7, 64, 4096)))
+			mx := c.Pick("rand.max", 2, 7, 64, 4096)
+			if n/mx > 1500 {
+				mx = n/1500 + 1 // keep the number of segments of a big stream bounded
+			}
+			k := 1 + c.Draw("rand.k", min(left, mx))
 			sizes = append(sizes, k)
 			left -= k
 		}
@@ -140,6 +144,10 @@ func runC08(t *testing.T, c *choice.Stream, r *Result, opt RunOpt) {
 		vs = append(vs, c08Variant{name: "gaps", sizes: sizes, gaps: gaps})
 	}
 
+	if n > 400000 {
+		// very large responses: the reference, one two-piece split and one coarse random split
+		vs = []c08Variant{vs[0], {name: fmt.Sprintf("two@%d", n/3), sizes: []int{n / 3, n - n/3}}, {name: "random", sizes: []int{n / 7, n / 5, n / 3, n - n/7 - n/5 - n/3}}}
+	}
 	var refTranscript string
 	digest := fnv.New64a()
 	total := &Result{}
